@@ -1,12 +1,12 @@
 #!/bin/bash
-# usage: tools/fuzz_tier.sh <ID> <target> <runs> [seed]
+# usage: tools/fuzz_tier.sh <ID> <target> <seconds> [seed]
 # Coverage-guided campaign of one libFuzzer target (thorough tier of C08 / C01): builds harness/fuzz
 # (nightly, ASan) against /repo's working tree, seeds the corpus from the harness generators, runs
-# `runs` executions, replays any artifact natively before reporting it, and appends a note to
+# for `seconds` of wall clock (a budget, not a verdict: running out of time is a pass), replays any artifact natively before reporting it, and appends a note to
 # evidence/<ID>.json. exit 0 held / 1 VIOLATION / 2 infrastructure.
 set -u
 ROOT="$(cd "$(dirname "$0")/.." && pwd)"
-ID="$1"; TARGET="$2"; RUNS="${3:-2000000}"; SEED="${4:-${VERIF_SEED:-0}}"
+ID="$1"; TARGET="$2"; SECS="${3:-900}"; SEED="${4:-${VERIF_SEED:-0}}"
 [ "$SEED" = "0" ] && SEED=1   # libFuzzer: 0 means "pick one"
 export CARGO_NET_OFFLINE=true
 FUZZ="$ROOT/harness/fuzz"; CORPUS="$FUZZ/corpus/$TARGET"; ART="$ROOT/replays/$ID"
@@ -21,7 +21,7 @@ fi
 MAXLEN=4096; [ "$TARGET" = "c01_cell" ] && MAXLEN=512
 JOBS=$(( $(nproc) / 2 )); [ "$JOBS" -lt 1 ] && JOBS=1
 RUSTFLAGS="--cfg scylla_verif" cargo +nightly fuzz run "$TARGET" "$CORPUS" -- \
-   -runs="$RUNS" -seed="$SEED" -max_len="$MAXLEN" -len_control=0 -timeout=25 -rss_limit_mb=6144 \
+   -max_total_time="$SECS" -seed="$SEED" -max_len="$MAXLEN" -len_control=0 -timeout=25 -rss_limit_mb=6144 \
    -artifact_prefix="$ART/fuzz-$TARGET-" -print_final_stats=1 >"$LOG" 2>&1
 FRC=$?
 EXECS=$(grep -E "stat::number_of_executed_units" "$LOG" | awk '{print $2}' | tail -1)
